@@ -104,6 +104,8 @@ func c12calls() []c12call {
 	chain("R1", "abéb", `"abéb"`)
 	all("R1", "abba", `"abba"`)
 	all("R1", long4k, "4097 runes")
+	all("R1", "éaé b", `"éaé b"`)
+	all("R1", "日本a 語b", `"日本a 語b"`)
 	repl("R1", "ab", "<$1>", `"ab"`)
 	repl("R1", "ab", "[$&]", `"ab"`)
 	repl("R1", "ba", "${1}$1", `"ba"`)
